@@ -946,3 +946,12 @@ Proof.
   destruct (Z.ltb_spec (Z.of_nat i) 1000000000); [|discriminate]. injection H as <-.
   split; [reflexivity|]. unfold unpairs. cbn [flat_map repeat app fst snd unset]. repeat constructor; lia.
 Qed.
+
+(* what lbuf_edit is handed: sbuf_buf(r) terminates the text inside the allocation and returns the start of the data block *)
+Lemma sb_buf m p cs d fuel : sb_inv m p cs ->
+  exists b m' rest, callf cprog fuel (S (S d)) F_sbuf_buf [VPtr p 0] m = Ok (VPtr b 0, m') /\
+    nth_error m' b = Some (map VInt cs ++ VInt 0 :: rest) /\ sbuf_step m m' p.
+Proof.
+  intros (sz & R & _). destruct (tr_sbuf_buf m p cs sz d fuel R) as (b & m' & rest & E & _ & _ & Hb & _ & _ & S' & _).
+  exists b, m', rest. auto.
+Qed.
